@@ -107,4 +107,10 @@ TEXT = {
     level_text="Generated proposals/answers over the whole 32-bit range with boundary density; after the handshake the harness sends and provokes frames of exactly the agreed size and one byte more.",
     level_note="Trusted: refwire, scripted handler/peer.",
  ),
+ "C18": dict(
+    technique="model-based property testing (rapid histories over 1..3 sessions) of ramfs against a reference tree keyed by node identity, reference-count validator through a hook; concurrent sessions under the Go race detector",
+    design_ref="DESIGN.md section 4, C18",
+    level_text="Stateful generated histories with boundary-biased 64-bit offsets and canned preludes (generated parameters) that reach stale-handle and removed-directory states; every call runs under recover; the concurrent variant asserts no panic, no race report, no deadlock and a consistent final reference count.",
+    level_note="Trusted: the model in harness/ramfsx/model.go, the hook VerifNewServer (fresh instance + nref validator). The concurrent variant does not assert per-call results.",
+ ),
 }
